@@ -382,7 +382,26 @@ def oracle(ctx, interp, Ad, A, theta, norm, spl, sym, rowsum0, base):
                                  'row %d: max |(RA)[i,j]| on the F pattern = %.3g' % (r, np.abs(RA[np.ix_(rows_, dofs)]).max()), case)
                         break
     # the restriction does not depend on the units of A (within ordinary ranges): local_air(s A) = local_air(A) (QR local solves)
+    #   -- asked only where the defining local systems are well posed: when A restricted to the F pattern of some row is
+    #   (numerically) singular the least-squares helper decides by an absolute cut-off which directions count as zero, and the
+    #   answer legitimately depends on the units (same guard as for the R A = 0 oracle above)
+    def _well_posed(degree):
+        Cs_ = sp.csr_array(classical_strength_of_connection(sp.csr_array(A), theta=0.1, norm='abs'))
+        Ad_ = sp.csr_array(A).toarray()
+        for cpt in np.where(spl == 1)[0]:
+            n1 = [j for j in Cs_.indices[Cs_.indptr[cpt]:Cs_.indptr[cpt + 1]] if spl[j] == 0]
+            Fp = set(n1)
+            if degree == 2:
+                for j in n1:
+                    Fp |= {k for k in Cs_.indices[Cs_.indptr[j]:Cs_.indptr[j + 1]] if spl[k] == 0}
+            Fp = sorted(int(j) for j in Fp)
+            if Fp and not np.linalg.cond(Ad_[np.ix_(Fp, Fp)]) < 1e6:
+                return False
+        return True
     for degree in (1, 2):
+        if not _well_posed(degree):
+            ctx.count('oracle:air/scaled-skipped-singular-local-system')
+            continue
         try:
             with warnings.catch_warnings():
                 warnings.simplefilter('ignore')
